@@ -6,6 +6,7 @@ mod parser;
 mod policy;
 mod rename;
 mod choreo;
+mod highlight;
 
 use ir::*;
 use kinds::Kinds;
@@ -158,6 +159,10 @@ fn main() {
     let repo3 = repo.clone();
     ok &= run_group("choreo", &["Choreo.lean"], &out, baseline.as_deref(), move || {
         vec![("Choreo.lean", choreo::extract(&repo3).unwrap_or_else(|e| die(e)))]
+    });
+    let repo4 = repo.clone();
+    ok &= run_group("highlight", &["Highlight.lean"], &out, baseline.as_deref(), move || {
+        vec![("Highlight.lean", highlight::extract(&repo4).unwrap_or_else(|e| die(e)))]
     });
     if !ok {
         std::process::exit(1);
